@@ -21,7 +21,7 @@ func init() {
 		ID:    "C09",
 		Title: "Frames the decoder must reject are rejected",
 		Level: "exploration",
-		Rule: "mutation of every frame of the valid corpus V (specification encoder; plus CONNECT frames with other protocol names/versions, which parse but are not v5.0; plus frames in which a user property holding non-UTF-8 bytes directly precedes each property the type allows; thorough adds frames with 127/128/255/256/16383/16384-byte strings) driven by the encoder's field map: " +
+		Rule: "mutation of every frame of the valid corpus V (specification encoder; plus CONNECT frames with other protocol names/versions, which parse but are not v5.0; plus frames in which a user property holding non-UTF-8 bytes directly precedes each property the type allows; plus minimal and rich frames under every other flag nibble; plus minimal and rich frames carrying, as their last property, each property MQTT defines but not for that packet type; thorough adds frames with 127/128/255/256/16383/16384-byte strings) driven by the encoder's field map: " +
 			"(a) every cut position strictly inside a two/four-byte integer, a string or binary (prefix or body), a multi-byte variable byte integer, or a property (between identifier and value), with the remaining length rewritten to the shortened size (PUBLISH payload exempt); " +
 			"(b) every variable-byte-integer position (remaining length, property length, subscription identifier) replaced by each 5-byte continuation {80,ff}^4 x {00,01,7f}, enclosing lengths adjusted; (c) every boolean property occurrence x every value 2..255; (d) every property position, will properties included, x all 229 identifiers MQTT v5.0 does not define. " +
 			"Every mutant is first confirmed to be rejected by the strict specification decoder (otherwise it is skipped and counted); ReadPacket must then return (nil, error) without panicking or exceeding the step budget - when the mutant is read alone from a bytes.Reader, from a bytes.Buffer, and as the second frame of a burst through a bufio.Reader (mutants of the remaining-length field also through a reader of own type with Peek/Discard and the plain scripted reader). distinct_nontrivial = distinct mutants by content hash.",
@@ -172,6 +172,57 @@ func c09Corpus(x *core.Ctx) []VFrame {
 						v = append(v, VFrame{B: b, Fields: fields, P: p, Name: fmt.Sprintf("%s.nonutf8(% x).before.%#02x.will=%v", bind.TypeNames[t], bad, id, inWill)})
 					}
 				}
+			}
+		}
+	}
+	// frames whose first byte carries another flag nibble (reserved bits set,
+	// PUBLISH: DUP and RETAIN varied - the QoS bits decide the layout): what
+	// the flags say must not switch the content checks off
+	// and frames carrying one more property that MQTT defines but not for
+	// this packet type, as the last of the section: a decoder that tolerates
+	// (skips) it must still see that it is cut short or ill-valued
+	for _, t := range allTypes {
+		for _, rich := range []bool{false, true} {
+			if rich && (t == 12 || t == 13) {
+				continue
+			}
+			p := minimalPacket(t)
+			if rich {
+				p = richPacket(t, false)
+			}
+			b, fields, err := spec.Encode(p, spec.Form{})
+			if err != nil {
+				continue
+			}
+			for nib := 0; nib < 16; nib++ {
+				if byte(nib) == b[0]&15 || (t == 3 && byte(nib)&6 != b[0]&6) {
+					continue
+				}
+				nb := append([]byte{b[0]&0xf0 | byte(nib)}, b[1:]...)
+				v = append(v, VFrame{B: nb, Fields: fields, P: p, Name: fmt.Sprintf("%s.rich=%v.flags=%x", bind.TypeNames[t], rich, nib)})
+			}
+			if t == 12 || t == 13 {
+				continue
+			}
+			for id := 1; id < 0x2b; id++ {
+				kind, _, ok := spec.PropInfo(byte(id))
+				if !ok || spec.PropAllowed(byte(id), t, false) {
+					continue
+				}
+				pr := spec.Prop{ID: byte(id)}
+				switch kind {
+				case spec.KindByte, spec.KindU16, spec.KindU32, spec.KindVarint:
+					pr.N = 1
+				case spec.KindString, spec.KindBinary:
+					pr.B = []byte("fs")
+				}
+				q := p.Clone()
+				q.Props = append(q.Props, pr)
+				fb, ff, ferr := spec.Encode(q, spec.Form{})
+				if ferr != nil {
+					continue
+				}
+				v = append(v, VFrame{B: fb, Fields: ff, P: q, Name: fmt.Sprintf("%s.rich=%v.foreign=%#02x", bind.TypeNames[t], rich, id)})
 			}
 		}
 	}
